@@ -134,8 +134,12 @@ class Position(NamedTuple):
 
     def line_of(self) -> str:
         """Return the line of text that contains this position."""
+        lines = self.text.splitlines(keepends=True)
         line_number, _ = self.line_col()
-        return self.text[line_number - 1]
+        if line_number > len(lines):
+            # At the end of a text that is empty or ends with a line break.
+            return ""
+        return lines[line_number - 1]
 
 
 class Pair:
